@@ -29,7 +29,7 @@ from mc import common, tab_rules
 
 TOL = 1e-12
 EPS53 = 2.0 ** -53
-CHUNK = 48
+CHUNK = 32
 
 I1D = [(0.0, 1.0), (2.0, 5.0), (-1.0, 3.0), (10.0, 10.5), (0.0, 1e-4), (0.0, 1e3), (-2.0, -2.0 + 1e-4), (100.0, 1100.0)]
 BOX2 = [(0.0, 1.0, 0.0, 1.0), (2.0, 5.0, -1.0, 3.0), (-1.0, 3.0, 10.0, 10.5), (0.0, 1e-4, 0.0, 1e-4), (0.0, 1e3, 0.0, 1e3),
@@ -185,29 +185,50 @@ def check_monomials(acc, spec, scheme, sname, variant, word, box, deg, sym=False
         S = S * 0.5 * (tabs[0][1][i] * tabs[1][1][j] + tabs[0][1][j] * tabs[1][1][i])
     flips = [word.count(c) % 2 == 1 for c in 'xyz'[:ndim]] if sym else [False] * ndim
     Q = np.empty(len(idx))
+    cache = {}   # power tables of the mapped points: the same points come back for every chunk of monomials
+
+    def tables(x):
+        x = np.asarray(x, dtype=float)
+        hit = cache.get('x')
+        if hit is not None and hit.shape == x.shape and np.array_equal(hit, x):
+            return cache['P']
+        P = []
+        for c in range(ndim):
+            xc = x if ndim == 1 else x[c]
+            if flips[c]:
+                xc = (box[2 * c] + box[2 * c + 1]) - xc
+            P.append(powers(xc, max(deg, 0)))
+        cache['x'], cache['P'] = x.copy(), P
+        npts = P[0].shape[1]
+        cache['b1'], cache['b2'] = np.empty((CHUNK, npts)), np.empty((CHUNK, npts))
+        return P
+
     try:
         for lo in range(0, len(idx), CHUNK):
             part = idx[lo:lo + CHUNK]
 
             def f(x, part=part):
-                x = np.asarray(x)
+                P = tables(x)
+                m = len(part)
+                b1, b2 = cache['b1'][:m], cache['b2'][:m]
+                np.take(P[0], part[:, 0], axis=0, out=b1)
                 if ndim == 1:
-                    return powers(x, deg)[part[:, 0]]
-                P = []
-                for c in range(ndim):
-                    xc = x[c]
-                    if flips[c]:
-                        xc = (box[2 * c] + box[2 * c + 1]) - xc
-                    P.append(powers(xc, deg))
+                    return b1
                 if sym:
-                    v = 0.5 * (P[0][part[:, 0]] * P[1][part[:, 1]] + P[0][part[:, 1]] * P[1][part[:, 0]])
+                    np.take(P[1], part[:, 1], axis=0, out=b2)
+                    np.multiply(b1, b2, out=b1)
+                    np.take(P[0], part[:, 1], axis=0, out=b2)
+                    t = P[1][part[:, 0]]
+                    np.multiply(b2, t, out=b2)
+                    np.add(b1, b2, out=b1)
+                    np.multiply(b1, 0.5, out=b1)
                     lo_c = 2
                 else:
-                    v = P[0][part[:, 0]]
                     lo_c = 1
                 for c in range(lo_c, ndim):
-                    v = v * P[c][part[:, c]]
-                return v
+                    np.take(P[c], part[:, c], axis=0, out=b2)
+                    np.multiply(b1, b2, out=b1)
+                return b1
 
             Q[lo:lo + CHUNK] = scheme.integrate(f, *box)
     except Exception as ex:  # noqa
